@@ -23,6 +23,8 @@ def make_text(parts):
                     flat[-1] += p
                 else:
                     flat.append(p)
+        elif isinstance(p, Opaque) and p.tag in ("str", "UUID", "str(UUID)"):
+            flat.append(("atom", p.attrs.get("$of", p)))  # an uninterpreted string, compared by identity
         else:
             return Opaque("str")
     return Opaque("text", attrs={"parts": flat})
@@ -197,8 +199,10 @@ class EvalMixin:
             if m is not None:
                 return self.call_function(FuncVal(m, self_val=v), [], {})
             return Opaque("str")
-        if isinstance(v, Opaque) and v.tag in ("text", "str(int)", "str"):
+        if isinstance(v, Opaque) and v.tag in ("text", "str(int)", "str", "str(UUID)"):
             return v
+        if isinstance(v, Opaque) and v.tag == "UUID":
+            return Opaque("str(UUID)", attrs={"$of": v})
         if isinstance(v, Opaque) and "__str__" in v.methods:
             return v.methods["__str__"](self)
         if is_symint(v):
